@@ -5,12 +5,12 @@ PID = 'C10'
 RULE = ("twin routes: a target content (random pixels/values) is built canonically (make_empty + ascending "
         "assignment) as map x and by a second route as map y — shuffled growth order, cov_pixels pre-allocation plus "
         "clears, copy, astype round trip, scalar-operator identity (+0 / *1), invert twice, get_single_covpix_map of a "
-        "one-coverage-pixel content, degrade to the same nside, upgrade+degrade, union with an empty map, MOC "
+        "one-coverage-pixel content, degrade to the same nside, write + read (full and by pixels), union with an empty map, MOC "
         "round trip for boolean content; then ONE continuation (coverage-growing updates, range updates, "
         "operators, degrade with weights, multi-map operation, queries) runs on both; every observation of x and y "
         "must equal the single Lean model stream (so x and y agree with each other, and raise on the same calls); "
         "non-trivial = the second route is not the canonical one and the continuation grows the coverage")
-ASSUMPTIONS = ["file-based routes (write+read) are exercised by C03's continuation histories"]
+ASSUMPTIONS = []
 
 
 def histories(rng, tier):
@@ -27,7 +27,9 @@ def histories(rng, tier):
         h = [c.line(), 'upd x op=replace pix=%s vals=%s' % (','.join(map(str, pix)), ','.join(vals))]
         y = gen.MapCfg('y', c.kind, c.covord, c.spord, dtype=c.dtype, sentinel=c.sentinel, maxbits=c.maxbits,
                        fields=c.fields, primary=c.primary)
-        routes = ['shuffled', 'prealloc', 'copy', 'emptyblock', 'emptyblock']
+        routes = ['shuffled', 'prealloc', 'copy', 'emptyblock', 'emptyblock', 'file', 'file', 'file_partial']
+        if c.kind == 'wide' or (c.is_int and c.zero_sentinel()):
+            routes += ['deg_or_same']
         if c.is_int or c.is_flt:
             routes += ['sop_identity', 'astype_rt', 'union_empty']
         if c.is_bool:
@@ -68,6 +70,18 @@ def histories(rng, tier):
             h.append('upd y op=replace pix=%s vals=%s' % (','.join(map(str, pix)), ','.join(vals)))
         elif route == 'copy':
             h.append('copy x r=y')
+        elif route == 'file':
+            # read back from a file: storage that does not own its buffer, on-disk byte order
+            h += ['write x f=fx compress=%s' % rng.choice('01'), 'read r=y f=fx']
+        elif route == 'file_partial':
+            cov = sorted(set(p // c.nfine for p in pix))
+            extra = [k for k in rng.sample(range(c.ncov), min(c.ncov, 2)) if k not in cov]
+            req = cov + extra
+            rng.shuffle(req)
+            h += ['write x f=fx compress=%s' % rng.choice('01'), 'read r=y f=fx pixels=%s' % ','.join(map(str, req))]
+        elif route == 'deg_or_same':
+            # (integer / wide-mask `or` degrade to the same nside keeps the zero sentinel: a ravelled view)
+            h += ['deg x r=y ord=%d red=or' % c.spord]
         elif route == 'sop_identity':
             h.append('sop x op=%s k=%s ktype=int r=y' % (rng.choice([('add', '0'), ('mul', '1')])))
             h[-1] = h[-1]  # noqa
